@@ -11,8 +11,9 @@
 //
 //	PEG     never commit,
 //	Commit  always commit once the failed alternative had matched a token,
-//	Any     every mixture of the two, decided independently at each failure
-//	        (the result is a set of outcomes).
+//	Any     every mixture of the two, decided independently at each failure where
+//	        no later alternative can begin with the token at hand (where one can,
+//	        an ordered choice has to try it); the result is a set of outcomes.
 //
 // A (grammar, input) pair has a prescribed result only if the Any set is a
 // singleton; everything else is "README silent" and must be excluded by callers.
@@ -344,6 +345,7 @@ type Matcher struct {
 	Overflow bool
 
 	stack []frame
+	nul   map[string]bool // nullable rules (lazily computed)
 	made  int
 }
 
@@ -433,8 +435,14 @@ func (m *Matcher) match(e *Expr, i int) []Outcome {
 					rec(k+1, t)
 				case m.Mode == Commit:
 					out = append(out, fail(t))
-				default: // Any: both continuations are allowed
-					out = append(out, fail(t))
+				default: // Any
+					// An ordered choice tries the next alternative. Giving up instead ("commit") is what an
+					// LL(1) engine does when the token at hand selects the failed alternative alone; when a
+					// later alternative can begin with that very token no reading of "ordered choice"
+					// permits giving up, so only the backtracking continuation is allowed there.
+					if i >= len(m.Toks) || !m.laterCanStart(e.Kids[k+1:], &m.Toks[i]) {
+						out = append(out, fail(t))
+					}
 					rec(k+1, t)
 				}
 			}
@@ -523,6 +531,59 @@ func (m *Matcher) match(e *Expr, i int) []Outcome {
 		out = compactFails(out)
 	}
 	return out
+}
+
+// laterCanStart: some alternative in alts can consume tok as its first token (nullable prefixes skipped).
+func (m *Matcher) laterCanStart(alts []*Expr, tok *Token) bool {
+	if m.nul == nil {
+		m.nul = Analyze(m.G).Nullable
+	}
+	for _, a := range alts {
+		if m.canStart(a, tok, map[string]bool{}) {
+			return true
+		}
+	}
+	return false
+}
+
+func (m *Matcher) canStart(e *Expr, tok *Token, seen map[string]bool) bool {
+	switch e.K {
+	case Tok, Lit:
+		return leafMatches(e, tok)
+	case Seq:
+		for _, k := range e.Kids {
+			if m.canStart(k, tok, seen) {
+				return true
+			}
+			if !nullable(k, m.nul) {
+				return false
+			}
+		}
+		return false
+	case Alt:
+		for _, k := range e.Kids {
+			if m.canStart(k, tok, seen) {
+				return true
+			}
+		}
+		return false
+	case Star, Plus, Opt, Adj:
+		return m.canStart(e.Kids[0], tok, seen)
+	case List: // R1 *(R2 R1)
+		if m.canStart(e.Kids[0], tok, seen) {
+			return true
+		}
+		return nullable(e.Kids[0], m.nul) && m.canStart(e.Kids[1], tok, seen)
+	case Ref:
+		if seen[e.S] {
+			return false
+		}
+		seen[e.S] = true
+		if r := m.G.rule(e.S); r != nil {
+			return m.canStart(r, tok, seen)
+		}
+	}
+	return false
 }
 
 // Run matches the root rule at token 0 and returns the distinct outcomes
